@@ -21,7 +21,9 @@ ASSUMPTIONS = ["difflib is excluded from the exact clause (b): it may pick a non
 FLOORS = {"quick": {"nosrc_cases": 3000, "nosrc_annotations_checked": 4000, "forced_cases": 5000,
                     "forced_annotations": 5000, "periodic_cases": 1500, "same_plain_other_source": 1500, "adjacent_left": 500, "adjacent_right": 500,
                     "touching_pairs": 300, "updater_pairs:dmp": 1500, "updater_pairs:difflib": 1500,
-                    "updater_offsets_swept": 100000, "multi_range_pairs": 2000},
+                    "updater_offsets_swept": 100000, "multi_range_pairs": 2000,
+                    "unique_char_cases": 3000, "unique_char_cases_all_slices_balanced": 500, "unique:difflib:unchecked": 5000,
+                    "unique:difflib:skip": 800, "unique:dmp:wrap": 400},
           "thorough": {"nosrc_cases": 150000, "forced_cases": 300000, "adjacent_left": 30000,
                        "adjacent_right": 30000, "updater_pairs:dmp": 80000, "updater_pairs:difflib": 80000}}
 N = {"quick": 4000, "thorough": 100000}
@@ -144,6 +146,63 @@ def forced(rng, rec):
         rec.sample(dict(case, output=out))
 
 
+TAG_RX = __import__("re").compile(r"<(/?)(\w+)(/?)>")
+
+
+def slice_balanced(t):
+    """Own judge of well-formedness for the inserted tag set (complete tags only)."""
+    if "<" in TAG_RX.sub("", t) or ">" in TAG_RX.sub("", t):
+        return False
+    stack = []
+    for close, name, selfc in TAG_RX.findall(t):
+        if selfc:
+            continue
+        if not close:
+            stack.append(name)
+        elif not stack or stack.pop() != name:
+            return False
+    return not stack
+
+
+def forced_unique(rng, rec):
+    """Plain texts in which every character occurs once, source = plain + foreign insertions: every common
+    subsequence alignment is forced, so the exact clause holds for ANY diff engine - checked for difflib
+    too, twice in a row (history), and in 'skip' and 'wrap' mode whenever every span's source slice is
+    balanced (then those modes have nothing to repair and must place the annotation like 'unchecked')."""
+    from eyecite import annotate_citations
+    k = rng.randint(2, min(40, len(set(A.PLAIN))))
+    p = "".join(rng.sample(sorted(set(A.PLAIN)), k))
+    s, pos = A.source_from(rng, p, rate=rng.choice([0.05, 0.15, 0.3]))
+    if s == p:
+        return
+    sp = A.disjoint_spans(rng, len(p))
+    anns = A.annotations(sp)
+    exp, last = [], 0
+    for i, (a, b) in enumerate(sp):
+        sa, sb = pos[a], pos[b - 1] + 1
+        exp.append(s[last:sa] + f"«{i}»" + s[sa:sb] + f"«/{i}»")
+        last = sb
+    exp = "".join(exp) + s[last:]
+    balanced = all(slice_balanced(s[pos[a]:pos[b - 1] + 1]) for a, b in sp)
+    rec.count("unique_char_cases")
+    if balanced and sp:
+        rec.count("unique_char_cases_all_slices_balanced")
+    for dmp in (True, False, False):
+        for mode in (("unchecked", "skip", "wrap") if balanced else ("unchecked",)):
+            case = dict(plain=p, source=s, spans=sp, clause="forced_unique", dmp=dmp, mode=mode)
+            try:
+                out = annotate_citations(p, anns, source_text=s, use_dmp=dmp, unbalanced_tags=mode)
+            except Exception as e:
+                rec.count("raised:" + type(e).__name__)
+                continue
+            rec.ev()
+            rec.count(f"unique:{'dmp' if dmp else 'difflib'}:{mode}")
+            if out != exp:
+                rec.violation("C10.forced_alignment_unique_chars", case, observed=out[:400], expected=exp[:400])
+    if sp:
+        rec.nontrivial(["unique", p, s, sp])
+
+
 def sweep(a, b, rec, tag):
     from eyecite.annotate import SpanUpdater
     for dmp in (True, False):
@@ -190,6 +249,7 @@ def run_shard(spec, rec):
         nosrc(rng, rec)
         for _ in range(2):
             forced(rng, rec)
+        forced_unique(rng, rec)
         a = A.plain_text(rng)
         r = rng.random()
         if r < 0.4:
@@ -212,6 +272,13 @@ def replay(w, rec):
         sp = [tuple(x) for x in c["spans"]]
         anns = A.annotations(sp)
         check_nosrc(c["plain"], anns, annotate_citations(c["plain"], anns, unbalanced_tags=c["mode"]), rec, c)
+    elif c.get("clause") == "forced_unique":
+        sp = [tuple(x) for x in c["spans"]]
+        for _ in range(2):      # the witness may need the same pair to have been annotated before
+            out = annotate_citations(c["plain"], A.annotations(sp), source_text=c["source"], use_dmp=c["dmp"],
+                                     unbalanced_tags=c["mode"])
+        if out[:400] != w.get("expected"):
+            rec.violation("C10.forced_alignment_unique_chars", c, observed=out[:400], expected=w.get("expected"))
     else:
         sp = [tuple(x) for x in c["spans"]]
         out = annotate_citations(c["plain"], A.annotations(sp), source_text=c["source"])
